@@ -474,7 +474,20 @@ func main() {
 			c.Violate(ev.Violation{Sig: sig, Msg: fmt.Sprintf("the race detector reported %d data race(s) in the free-running pass; first report:\n%s", races, first), Witness: first}, nil)
 		}
 		if rp["summary"] == nil {
-			ev.Harness("C15", "race pass did not complete: %s", text[:min(len(text), 2000)])
+			// the free-running pass ended without its final line: the process died (a panic or a fatal runtime error
+			// inside a library goroutine, e.g. "WaitGroup is reused before previous Wait has returned")
+			at := strings.Index(text, "panic:")
+			if f := strings.Index(text, "fatal error:"); f >= 0 && (at < 0 || f < at) {
+				at = f
+			}
+			if at >= 0 {
+				excerpt := text[at:min(len(text), at+1500)]
+				c.Violate(ev.Violation{Sig: "racepass/crash", Msg: "the free-running pass crashed: " + excerpt, Witness: excerpt}, nil)
+				rp["summary"] = "crashed"
+			} else {
+				c.Cut("the free-running pass did not complete and printed no crash report: " + text[max(0, len(text)-400):])
+				rp["summary"] = "did not complete"
+			}
 		}
 	} else {
 		rp["skipped"] = "race binary not built"
@@ -486,6 +499,13 @@ func main() {
 		"object workers are spawned in Go map iteration order; workers run key-independent control flow, so the schedule tree is the same for every spawn order",
 		"for data-race-free executions the Go memory model guarantees sequential consistency, so behaviours on any GOMAXPROCS are among the enumerated interleavings")
 	os.Exit(c.Finish())
+}
+
+func max(a, b int) int {
+	if a > b {
+		return a
+	}
+	return b
 }
 
 func min(a, b int) int {
